@@ -164,14 +164,15 @@ mod p {
     pub const DISPLAY_FAIL: usize = 12;
     pub const DISPLAY_COLLECTSTR_ERR: usize = 13;
     pub const SLACK_UNTOUCHED: usize = 14;
-    pub const NAMES: [&str; 15] = [
+    pub const COBS_RUN_EXACTLY_254: usize = 15;
+    pub const NAMES: [&str; 16] = [
         "failure_on_the_very_last_byte",
         "capacity_zero",
         "cobs_sentinel_push_fails_in_finalize",
         "cobs_placeholder_push_fails",
         "crc_tail_fails_in_finalize",
         "failure_inside_a_multi_byte_leaf",
-        "output_contains_cobs_code_0xff",
+        "plain_encoding_has_a_full_cobs_block_of_254_non_zero_bytes",
         "slice_flush_against_leading_guard",
         "slice_flush_against_trailing_guard",
         "capacity_exactly_output_length",
@@ -180,6 +181,7 @@ mod p {
         "collect_str_value_with_too_small_sink",
         "collect_str_value_reported_CollectStrError",
         "success_with_slack_and_slack_untouched",
+        "longest_non_zero_run_of_plain_encoding_is_exactly_254",
     ];
 }
 
@@ -315,8 +317,20 @@ fn exec_c05(t: &C05Trace, out: &mut Outcome<C05Trace>) {
             }
         };
         let l = u.len();
-        if fr == Framing::Cobs && u.contains(&0xFF) {
-            out.probe(p::COBS_FF);
+        if fr == Framing::Cobs {
+            // a full COBS block: 254 non-zero bytes in a row in the plain encoding
+            let mut run = 0usize;
+            let mut maxrun = 0usize;
+            for b in &plain {
+                run = if *b == 0 { 0 } else { run + 1 };
+                maxrun = maxrun.max(run);
+            }
+            if maxrun >= 254 {
+                out.probe(p::COBS_FF);
+            }
+            if maxrun == 254 {
+                out.probe(p::COBS_RUN_EXACTLY_254);
+            }
         }
         // ---- slices, both guard placements, every capacity 0..=L+2
         for (st, place) in [(Storage::SliceEndGuard, Place::End), (Storage::SliceStartGuard, Place::Start)] {
@@ -557,6 +571,41 @@ fn exec_c05(t: &C05Trace, out: &mut Outcome<C05Trace>) {
     out.bytes += plain.len() as u64;
 }
 
+/// A message whose plain encoding has non-zero runs of length 253..=255 (or two blocks), ending
+/// at the end of the message or at a zero byte: the places where the COBS encoder closes a full
+/// block and opens the next one.
+fn cobs_stress_msg(rng: &mut Rng) -> Msg {
+    use crate::shape::Val;
+    let target = *rng.pick(&[253usize, 254, 254, 254, 255, 508, 509]);
+    let nz = |rng: &mut Rng, n: usize| -> Vec<u8> { (0..n).map(|_| 1 + rng.below(255) as u8).collect() };
+    // the 2-byte length prefix of a 128..16383-byte payload is part of the run
+    let mut data = nz(rng, target - 2);
+    match rng.below(4) {
+        0 => {}
+        1 => data.push(0),
+        2 => {
+            data.push(0);
+            let k = rng.range(1, 6);
+            data.extend(nz(rng, k));
+        }
+        _ => {
+            let k = rng.range(1, 3);
+            data.extend(nz(rng, k));
+        }
+    }
+    match rng.below(3) {
+        0 => Msg { shape: Shape::Bytes, val: Val::Bytes(data) },
+        1 => Msg {
+            shape: Shape::Str,
+            val: Val::Str(data.iter().map(|b| if *b == 0 { '\0' } else { (b'a' + b % 26) as char }).collect()),
+        },
+        _ => Msg {
+            shape: Shape::Tuple(vec![Shape::Bytes, Shape::U8]),
+            val: Val::Seq(vec![Val::Bytes(data), Val::Uint(rng.below(3) as u128)]),
+        },
+    }
+}
+
 impl Scenario for C05 {
     type Trace = C05Trace;
     const ID: &'static str = "C05";
@@ -589,7 +638,9 @@ impl Scenario for C05 {
             _ => 12,
         };
         let cfg = GenCfg::swarm(rng, budget);
-        let msg = if rng.chance(1, 6) {
+        let msg = if rng.chance(1, 12) {
+            cobs_stress_msg(rng)
+        } else if rng.chance(1, 6) {
             // aim the output length at the instantiated heapless capacities
             let target = *rng.pick(&super::c05::HCAPS[1..]);
             Msg::gen_fitting(rng, &cfg, target)
